@@ -88,7 +88,8 @@ def box_job(job):
         return part
     csn = "planetary" if planetary else "astronomical"
     tiles = {tuple(t.pos): t for t in toast.generate_tiles(depth, bottom_only=False, coordsys=cs_of(planetary))}
-    for box in bxs:
+    other_tiles = {tuple(t.pos): t for t in toast.generate_tiles(min(depth, 2), bottom_only=False, coordsys=cs_of(not planetary))}
+    for box_index, box in enumerate(bxs):
         cfg = {"box": [float(v) for v in box], "coordsys": csn}
 
         def bad(clause, detail):
@@ -99,6 +100,14 @@ def box_job(job):
         except Exception as e:
             bad("constructor-raises:%s" % type(e).__name__, repr(e))
             continue
+        # the filter object is first used on the OTHER coordinate system's tiles (an answer remembered per
+        # position would be wrong for this system)
+        if box_index % 2 == 0:
+            for pos, t in other_tiles.items():
+                try:
+                    flt(t)
+                except Exception:
+                    pass
         verdict = {}
         for pos, t in tiles.items():
             snap = corners_snapshot(t)
@@ -132,6 +141,19 @@ def box_job(job):
 
 
 def footprint_wcs(nx, ny, scale, rot, parity, center):
+    from astropy.wcs import WCS
+
+    crpix = None
+    if len(center) == 4:
+        # (ra, dec, crpix1, crpix2): the reference point (e.g. a pole) sits off-centre in the image
+        center, crpix = center[:2], center[2:]
+    w = _footprint_wcs(nx, ny, scale, rot, parity, center)
+    if crpix is not None:
+        w.wcs.crpix = list(crpix)
+    return w
+
+
+def _footprint_wcs(nx, ny, scale, rot, parity, center):
     from astropy.wcs import WCS
 
     w = WCS(naxis=2)
@@ -216,6 +238,16 @@ def footprint_job(job):
                 probes += [(-0.5 + dl, ay), (nx - 0.5 - dl, ay)]
             probes += [(-0.5 + dl, -0.5 + dl), (nx - 0.5 - dl, -0.5 + dl), (-0.5 + dl, ny - 0.5 - dl), (nx - 0.5 - dl, ny - 0.5 - dl)]
         probes += [(nx / 2.0 - 0.5, ny / 2.0 - 0.5)]
+        # a celestial pole inside the image: the tiles right around it
+        for pdec in (90.0, -90.0):
+            try:
+                ppx, ppy = wcs.all_world2pix(0.0, pdec, 0)
+            except Exception:
+                continue
+            if np.isfinite(ppx) and np.isfinite(ppy) and -0.4 < ppx < nx - 0.6 and -0.4 < ppy < ny - 0.6:
+                rr, dd = wcs.all_pix2world(float(ppx), float(ppy), 0)
+                if abs(float(dd) - pdec) < 1e-6:
+                    probes += [(float(ppx) + dx_, float(ppy) + dy_) for dx_, dy_ in ((0.0, 0.0), (0.05, 0.02), (-0.2, 0.1), (0.3, -0.3))]
         ra, dec = wcs.all_pix2world(np.array([p[0] for p in probes]), np.array([p[1] for p in probes]), 0)
         # depths at which a tile is about 3, 1 and 0.3 image pixels across
         def depth_for(tile_px):
@@ -417,6 +449,11 @@ def footprints(tier):
     rots = [0.0, 30.0, 45.0, 90.0, 200.0]
     centers = [(0.0, 0.0), (180.0, 30.0), (10.0, 89.5), (200.0, -89.5), (359.9, 60.0)]
     out = []
+    # non-square images containing a pole far along the long axis (beyond the short axis' length)
+    for (nx, ny, cx, cy) in [(64, 24, 50.3, 12.2), (24, 64, 12.2, 50.3), (64, 24, 8.4, 11.7)]:
+        for dec in (90.0, -90.0):
+            for parity in (1, -1):
+                out.append((nx, ny, 1.0, 0.0 if parity > 0 else 30.0, parity, (0.0, dec, cx, cy)))
     k = 0
     for (nx, ny) in sizes:
         for scale in (0.02, 0.6):
